@@ -215,6 +215,9 @@ func init() {
 		return nil
 	})
 	reg(vfPkg+".Preemptions", func(fr *frame, a []value) value { fr.ex.preempt = int(asInt64(a[0])); return nil })
+	// NoSlowHolders: the "holder is slower than the lock lease" decision is switched off; a
+	// lock wait can then only end with a timeout when nobody else can run (a stall)
+	reg(vfPkg+".NoSlowHolders", func(fr *frame, a []value) value { fr.ex.leaseExpiries = 1 << 20; return nil })
 	reg(vfPkg+".PreemptIn", func(fr *frame, a []value) value {
 		fr.ex.cfgPreemptFn(strArg(fr, a[0]))
 		return nil
